@@ -56,7 +56,10 @@ class efloat__ext_to_mpb_fmt(Contract):
     returns = 'MPBFloatFormat'
     properties = ['C01']
     split = ['nan_kind', 'enable_inf']
-    options = {'split_heavy': True}
+    # next_towards_zero (normalise to p digits, decrement, renormalise) over symbolic widths does not go through the
+    # solver in the time available: bounded stand-in, every width / exponent <= 10 (never counted as proved)
+    options = {'split_heavy': True, 'bounded': 10, 'bounded_try_ms': 1500, 'bounded_ms': 30000,
+               'symbolic_tier': 'thorough'}      # minutes per case: thorough tier only (tools/ctx2_native_efloat.py cross-checks natively)
 
     def pre(self, es, nbits, enable_inf, nan_kind, eoffset):
         return {'valid': ef2_valid(es, nbits, enable_inf, nan_kind.name)}
@@ -93,6 +96,8 @@ class EFloatFormat___init__(Contract):
     returns = 'None'
     properties = ['C01']
     split = ['nan_kind']
+    options = {'noax_first_ms': 8000, 'light_theory': True,
+               'opaque': {'fits_p': ['all', 'bool'], 'grid_ok': ['all', 'bool'], 'mag_eq_ec': ['all', 'bool']}}
 
     def post(self, es, nbits, enable_inf, nan_kind, eoffset, result):
         nk = nan_kind.name
